@@ -1,6 +1,7 @@
 package main
 
 import (
+	"go/types"
 	"go/ast"
 	"encoding/json"
 	"flag"
@@ -39,6 +40,8 @@ func main() {
 		os.Exit(cmdSweep(os.Args[2:]))
 	case "ordinals":
 		os.Exit(cmdOrdinals(os.Args[2:]))
+	case "errloops":
+		os.Exit(cmdErrLoops(os.Args[2:]))
 	default:
 		usage()
 	}
@@ -634,6 +637,71 @@ func cmdOrdinals(args []string) int {
 		}
 		for i, c := range closuresOf(fi.decl.Body) {
 			fmt.Printf("  closure#%d line %d\n", i+1, line(c))
+		}
+	}
+	return 0
+}
+
+// cmdErrLoops lists loops that assign an error variable declared outside the loop (candidates for the C18 invariant
+// "no error is pending at the loop head": a failed step must end the function, not be overwritten by the next step).
+func cmdErrLoops(args []string) int {
+	fs := flag.NewFlagSet("errloops", flag.ExitOnError)
+	repo := fs.String("repo", "/repo", "")
+	fs.Parse(args)
+	prog, err := loadProgram(*repo, repoPkgPatterns, nil)
+	if err != nil {
+		fmt.Println(err)
+		return 2
+	}
+	_ = prog.loadExtContracts(filepath.Join(verifRoot(), "contracts", "ext"))
+	_ = prog.bindContracts()
+	var keys []string
+	for k, fi := range prog.funcs {
+		if strings.HasPrefix(fi.pkg.PkgPath, repoModule) && fi.decl.Body != nil {
+			keys = append(keys, k)
+		}
+	}
+	sort.Strings(keys)
+	errT := types.Universe.Lookup("error").Type()
+	for _, k := range keys {
+		fi := prog.funcs[k]
+		if strings.HasSuffix(prog.fset.Position(fi.decl.Pos()).Filename, "_test.go") {
+			continue
+		}
+		info := fi.pkg.TypesInfo
+		for i, l := range loopsOf(fi.decl.Body) {
+			body := loopBody(l)
+			found := map[string]bool{}
+			ast.Inspect(body, func(n ast.Node) bool {
+				if _, ok := n.(*ast.FuncLit); ok {
+					return false
+				}
+				as, ok := n.(*ast.AssignStmt)
+				if !ok || as.Tok.String() != "=" {
+					return true
+				}
+				for _, lh := range as.Lhs {
+					id, ok := lh.(*ast.Ident)
+					if !ok {
+						continue
+					}
+					o, _ := info.Uses[id].(*types.Var)
+					if o == nil || !types.Identical(o.Type(), errT) {
+						continue
+					}
+					if o.Pos() < l.Pos() || o.Pos() > l.End() {
+						found[id.Name] = true
+					}
+				}
+				return true
+			})
+			for name := range found {
+				has := "no contract"
+				if c := prog.contracts[k]; c != nil {
+					has = "under contract"
+				}
+				fmt.Printf("%s loop#%d line %d var %s (%s)\n", k, i+1, prog.fset.Position(l.Pos()).Line, name, has)
+			}
 		}
 	}
 	return 0
